@@ -46,6 +46,7 @@ M = [
  ("C10_quiet_errors_to_stdout", "C10", "internal/cmd/cmd_build.go", "errWriter := out", "errWriter := cmd.OutOrStdout()", "NewBuildCmd"),
  ("C14_functions_before_imports", "C14", "internal/pkg/compiler/step_compile_meta.go", "\terrs = append(errs, s.handleImports(i.Meta.Imports))\n\ts.handleFunctions(i.Meta.Functions)\n", "\ts.handleFunctions(i.Meta.Functions)\n\terrs = append(errs, s.handleImports(i.Meta.Imports))\n", "aliases_registered_before_functions"),
  ("C02_value_pointer_dropped", "C02", "internal/pkg/syntax/helpers.go", "return m[\"ptr\"] + strings.Join(append(parts, m[\"value\"]), \".\")", "return strings.Join(append(parts, m[\"value\"]), \".\")", "CompileServiceValue"),
+ ("C16_flag_variables_swapped", "C16", "internal/cmd/cmd_build.go", 'cmd.Flags().BoolVarP(&ignoreMissingParams, "ignore-missing-params", "", false, "ignore missing parameters")\n\tcmd.Flags().BoolVarP(&ignoreMissingServices, "ignore-missing-services", "", false, "ignore missing services")', 'cmd.Flags().BoolVarP(&ignoreMissingServices, "ignore-missing-params", "", false, "ignore missing parameters")\n\tcmd.Flags().BoolVarP(&ignoreMissingParams, "ignore-missing-services", "", false, "ignore missing services")', "each_flag_sets_its_own_variable"),
  ("C08_output_path_made_absolute", "C08", "internal/cmd/runner/step_code_generator.go", None, None, ""),
 ]
 out = "/verif/selftest/mutants"
